@@ -135,7 +135,7 @@ def _call(r, key, fn):
     try:
         with warnings.catch_warnings():
             warnings.simplefilter("ignore")
-            return True, fn()
+            return True, r.twice(key, fn)
     except Exception as e:  # every generated configuration is inside the property's domain
         r.fail(key + ":raises", "%s: %s" % (type(e).__name__, e))
         return False, None
